@@ -417,8 +417,9 @@ def migratePod (s : State) (p : PodObj) (out inQ : Nat) : State :=
   let s2 := if asg then updPodUsed s1 out p.id (some p) none else s1
   let s3 := cacheRemove s2 out p.id
   let s4 := cacheAdd s3 inQ p
-  -- updatePodIsAssignedNoLock(in, pod, isAssigned): same flag => error, ignored
-  let s5 := if asg then setAssigned s4 inQ p.id true else s4
+  -- updatePodIsAssignedNoLock(in, pod, isAssigned): same flag => error, ignored; a DIFFERENT flag is overwritten in
+  -- both directions (an entry the target already held as assigned is cleared when the pod is unassigned in `out`)
+  let s5 := setAssigned s4 inQ p.id asg
   let s6 := updPodReq s5 inQ none (some p)
   if asg then updPodUsed s6 inQ p.id none (some p) else s6
 
